@@ -632,6 +632,12 @@ int32 eccTestPoint(psPool_t *pool, psEccPoint_t *P, pstm_int *prime,
     pstm_digit *paD;
     int32 err;
 
+    /* A field element is encoded as an integer below the prime (SEC 1,
+       2.3.4): x + p is not another way to write x. */
+    if (pstm_cmp(&P->x, prime) != PSTM_LT || pstm_cmp(&P->y, prime) != PSTM_LT)
+    {
+        return PS_LIMIT_FAIL;
+    }
     if ((err = pstm_init(pool, &t1)) < 0)
     {
         return err;
